@@ -93,6 +93,8 @@ def main(argv):
             meta = os.path.join(sdir, sid, 'meta.json')
             if os.path.exists(meta) and (not names or sid in names):
                 md = json.load(open(meta))
+                if md.get('neutralised_by'):
+                    continue        # no longer breaks the property on HEAD (a repo fix covers it); see its meta.json
                 todo.append(('seeded', sid, md.get('caught_by') or [md['property']], os.path.join(sdir, sid, 'patch.diff')))
     cl = claimed()
     results = []
